@@ -19,11 +19,19 @@ Session 3: the lag counts of `MAR_est_LWR` and of `fit_model`'s fixed-order bran
 whole `order` / `max_order` / criterion semantics of `fit_model` (`fitPair` runs it); integer-typed
 recordings are modelled by the exact embedding `ofIntK` (`crosscovEntryInt`, driver op `ccovi`);
 `aicc` = the AIC with `corrected=True`.
+
+Wave 6 (structured inputs): the order loop's control flow is GENERATED (`Generated/LwrFlow.lean`; `loopRunsEveryPass`):
+`lwr` performs every pass `p = 0..P-1`, also when the reflection numerator `lwrDelta` vanishes; `lwrBreak` is the
+counter-model of an early exit on a vanishing numerator (seed C11-12); op `lwrq` runs `lwr` in EXACT rational arithmetic
+(`GSq CQ n`) on the binary64 lags and reports the exact truth of the Yule–Walker equations, of the covariance identity, of
+"every inverse existed", and whether the early-exit discipline would have returned the same.
 -/
 import Nitime.Model.ARBase
 import Nitime.Model.SqMatK
 import Nitime.Model.GrangerObj
 import Nitime.Generated.FitModel
+import Nitime.Generated.LwrFlow
+import Nitime.Model.C10
 
 namespace Nitime.C11
 open Nitime.AR Nitime.Proto
@@ -62,6 +70,33 @@ def lwrLoop (r : Nat → M) : Nat → LWRSt M
 
 /-- `lwr_recursion(r)` for `r` of shape `(P+1, nc, nc)`: `(a, sigf)` -/
 def lwr (r : Nat → M) (P : Nat) : List M × M := ((lwrLoop r P).a, (lwrLoop r P).sigf)
+
+/-! ### control flow of the order loop (wave 6)
+
+`for p in range(P)` contains no `break` / `continue` / `return` / `raise` and no conditional: every pass is performed,
+whatever the value of the reflection numerator.  The facts are GENERATED from the source (`harness/translate_c11.py:
+gen_lwr_flow`); `Props/C11Sparse.lean: lwr_source_runs_every_pass` is `decide` over them. -/
+
+/-- the source's order loop has the shape `lwrLoop` models: `range(P)`, no early exit, no guarded update, `return a, sigf`
+directly after it -/
+def loopRunsEveryPass : Bool :=
+  Nitime.Generated.LwrFlow.orderLoopExits.isEmpty && Nitime.Generated.LwrFlow.orderLoopGuards.isEmpty &&
+  Nitime.Generated.LwrFlow.orderLoopOverRangeP && Nitime.Generated.LwrFlow.returnsAfterLoop &&
+  Nitime.Generated.LwrFlow.whileLoops == 0
+
+/-- the reflection numerator `delta_{p+1} = r(p+1) + Σ_{i=1..p} a(i)·r(p+1-i)` of pass `p` (the first `let` of `lwrStep`) -/
+def lwrDelta (r : Nat → M) (p : Nat) (s : LWRSt M) : M :=
+  foldAdd (r (p + 1)) p fun i => s.a.getD i zero *: r (p - i)
+
+/-- COUNTER-MODEL (seed C11-12): the loop with `if <delta vanishes>: break` before the updates -/
+def lwrBreakFrom (isZero : M → Bool) (r : Nat → M) : Nat → Nat → LWRSt M → LWRSt M
+  | 0, _, s => s
+  | fuel + 1, p, s => if isZero (lwrDelta r p s) then s else lwrBreakFrom isZero r fuel (p + 1) (lwrStep r p s)
+
+/-- what that variant returns: the coefficient array keeps its initial zeros beyond the pass at which the loop was left -/
+def lwrBreak (isZero : M → Bool) (r : Nat → M) (P : Nat) : List M × M :=
+  let s := lwrBreakFrom isZero r P 0 ⟨[], [], r 0, r 0⟩
+  (s.a ++ List.replicate (P - s.a.length) zero, s.sigf)
 
 /-! ### the covariance stack as an OBJECT with other consumers (round 2, L8)
 
@@ -339,8 +374,59 @@ def showGOutK : GrangerObj.OutK (Nat × Nat) Fit → List String
   | .model none => ["E"]
   | .done => []
 
+/-! ### exact rational runs of the block recursion (wave 6) -/
+
+section exact
+open Nitime.C10
+variable {K : Type} [Scalar K]
+
+/-- entrywise equality of two `n × n` lists of rows -/
+def meqK (n : Nat) (a b : GSq K n) : Bool :=
+  (List.range n).all fun i => (List.range n).all fun j => Scalar.beq (GMat.entry a i j) (GMat.entry b i j)
+
+/-- `R(k - i)` with `R(-m) = R(m)ᴴ` -/
+def lagK (n : Nat) (r : Nat → GSq K n) (k i : Nat) : GSq K n :=
+  if i ≤ k then r (k - i) else MatOps.star (r (i - k))
+
+/-- `A(0) = I`, `A(i) = a[i-1]` -/
+def coefK (n : Nat) (a : List (GSq K n)) (i : Nat) : GSq K n :=
+  if i = 0 then MatOps.one else a.getD (i - 1) MatOps.zero
+
+/-- `lwr_recursion` on the lags `rs` over `K`, followed by the truth values (decided by `Scalar.beq`: exact at `K = CQ`) of:
+the block Yule–Walker equations `Σ_{i=0..P} A(i)·R(k-i) = 0`, `k = 1..P` (`lwr_solves`); `Σ = Σ_i A(i)·R(-i)`; every inverse
+the loop takes exists (`InvOK`); the early-exit variant `lwrBreak` returns the same coefficients -/
+def lwrExact (n : Nat) (rs : List (List (List K))) : (List (GSq K n) × GSq K n) × List Bool :=
+  let P := rs.length - 1
+  let r : Nat → GSq K n := fun k => rs.getD k (GMat.zeros n)
+  let res := lwr r P
+  let ywOK := (List.range P).all fun k =>
+    meqK n (msumRange (P + 1) fun i => coefK n res.1 i *: lagK n r (k + 1) i) (MatOps.zero)
+  let sigOK := meqK n res.2 (msumRange (P + 1) fun i => coefK n res.1 i *: lagK n r 0 i)
+  let invOK := (List.range P).all fun j =>
+    (GMat.inv? n (lwrLoop r j).sigf).isSome && (GMat.inv? n (lwrLoop r j).sigb).isSome
+  let brk := lwrBreak (fun d => meqK n d MatOps.zero) r P
+  let brkSame := brk.1.length == res.1.length && (List.range P).all fun i =>
+    meqK n (brk.1.getD i MatOps.zero) (res.1.getD i MatOps.zero)
+  (res, [ywOK, sigOK, invOK, brkSame])
+
+def matsOfQ (n cnt : Nat) (zs : List CQ) : List (List (List CQ)) :=
+  (List.range cnt).map fun t => GMat.ofFn n n fun i j => zs.getD (t * n * n + i * n + j) ⟨0, 0⟩
+
+def showMatsQ (ms : List (List (List CQ))) : String :=
+  showCQList (ms.foldr (fun m acc => m.foldr (fun row a2 => row ++ a2) acc) [])
+
+end exact
+
 def handle (args : List String) : String :=
   match args with
+  | ["lwrq", n, den, rs] => match n.toNat?, den.toNat?, parseIntList? rs with
+    | some n, some den, some zi =>
+      -- the lags as exact rationals `int / den` (binary64 values are dyadic rationals): `lwr` at `K = CQ`
+      if n = 0 ∨ den = 0 ∨ zi.length % (n * n) ≠ 0 ∨ zi.length = 0 then "bad-op" else
+      let zs : List Nitime.C10.CQ := zi.map fun (z : Int) => ⟨(z : Rat) / (den : Rat), 0⟩
+      let out := lwrExact (K := Nitime.C10.CQ) n (matsOfQ n (zi.length / (n * n)) zs)
+      "ok " ++ showMatsQ out.1.1 ++ " " ++ showMatsQ [out.1.2] ++ " " ++ showBoolList out.2
+    | _, _, _ => "bad-op"
   | ["lwr", n, rs] => match n.toNat?, parseCList? rs with
     | some n, some zs =>
       if n = 0 ∨ zs.length % (n * n) ≠ 0 ∨ zs.length = 0 then "bad-op" else
